@@ -10,6 +10,7 @@ import io
 import weakref
 import random
 import struct
+import sys
 from functools import lru_cache
 
 SECTOR = 512
@@ -374,6 +375,7 @@ class BudgetExceeded(BaseException):
 
 
 LIVE_PROXIES: list = []  # weak references to the proxies handed out in the current case
+ALL_PROXIES: list = []  # the same proxies, strongly held until the case is over (to see who closed them)
 
 
 def disturb_handles(rng) -> int:
@@ -443,6 +445,7 @@ class ProxyFile:
         self.calls: list[tuple] | None = [] if log_calls else None
         self.budget_tripped = False
         LIVE_PROXIES.append(weakref.ref(self))
+        ALL_PROXIES.append(self)
         try:
             pos = fh.tell()
             fh.seek(0, 2)
@@ -519,6 +522,11 @@ class ProxyFile:
 
     def close(self) -> None:
         self.closed_by_callee = True
+        try:
+            f = sys._getframe(1)
+            self.closed_from = f"{f.f_code.co_filename.rsplit('/', 3)[-1]}:{f.f_lineno} {f.f_code.co_name}"
+        except Exception:  # noqa: BLE001
+            self.closed_from = "?"
 
     @property
     def closed(self) -> bool:
